@@ -74,7 +74,7 @@ def v3000_random_sessions(rng, tier, n):
         via_file = rng.random() < 0.15
         if via_file and UTF8_FILES:
             lines[rng.choice([0, 2])] = rng.choice(textgen.UNICODE_HEADERS)      # title / comment line in the file's encoding
-        a = S.read(lines, "V3000", "C07", mol=textgen.mol_event(Mf), floats=textgen.floats_of(M), eol=rng.choice(["\n", "\n", "\r\n"]), via_file=via_file)
+        a = S.read(lines, "V3000", "C07", mol=textgen.mol_event(Mf), floats=textgen.floats_of(M), eol=rng.choice(["\n", "\n", "\r\n", "\r"]), via_file=via_file)
         # the same spelling with the defaults written out / left out: the reader must return the same graph
         if rng.random() < 0.6:
             st = rng.getstate()
@@ -195,6 +195,13 @@ def version_word_sessions(rng, tier, fmt):
         S = Session(f"version-{fmt}-{i}")
         S.read(lines, fmt, "C07" if fmt == "V3000" else "C08", floats=textgen.floats_of(M))
         ss.append(S)
+    if fmt == "V3000":
+        # the "no structure" record: a connection table without atoms (the writer itself produces it for an empty graph)
+        for i, extra in enumerate([[], ["M  V30 BEGIN BOND", "M  V30 END BOND"]]):
+            lines = ["", "  SPEC", "", "  0  0  0     0  0            999 V3000", "M  V30 BEGIN CTAB", "M  V30 COUNTS 0 0 0 0 0", "M  V30 BEGIN ATOM", "M  V30 END ATOM"] + extra + ["M  V30 END CTAB", "M  END"]
+            S = Session(f"no-structure-{i}")
+            S.read(lines, "V3000", "C07", mol={"atoms": [], "bonds": []}, floats={})
+            ss.append(S)
     for i, sfx in enumerate([".mol", ".sdf", ".MOL", ".mol2", ""]):
         M = textgen.abstract_molecule(rng, 4, pool=["C", "N", "O"], coords=["0", "1.5"])
         for a in M["atoms"]:
@@ -387,7 +394,7 @@ def c06(out, tier, rng):
             via_file = rng.random() < 0.3
             if via_file and UTF8_FILES and rng.random() < 0.6:
                 lines[rng.choice([0, 2])] = rng.choice(textgen.UNICODE_HEADERS)      # title / comment line in the file's encoding
-            x = S.read(lines, fmt, "C07" if fmt == "V3000" else "C08", floats=textgen.floats_of(N), eol=rng.choice(["\n", "\r\n"]), via_file=via_file)
+            x = S.read(lines, fmt, "C07" if fmt == "V3000" else "C08", floats=textgen.floats_of(N), eol=rng.choice(["\n", "\r\n", "\n", "\r\n", "\r"]), via_file=via_file)
             ids.append(x); perms.append(perm); rids.append(S.last_read)
         for x in ids:
             if x:
@@ -507,6 +514,24 @@ def c09(out, tier, rng):
         if lines:
             fl = textgen.floats_from_lines(lines)
             S.read(lines, "V3000", "C09", floats=fl)
+        ss.append(S)
+    # calculated coordinates (the writer lays the atoms out itself): mixtures of several fragments, atoms and bonds as before
+    for i in range(12 if tier == "quick" else 120):
+        frs = [gen.random_molecule(rng, rng.randint(1, 4), label_p=0.3, density=0.8) for _ in range(rng.randint(2, 4))]
+        import networkx as nx
+        g = frs[0]
+        for f in frs[1:]:
+            g = nx.disjoint_union(g, f)
+        S = Session(f"c09-calc-{i}")
+        o = S.input(g)
+        lines = S.write(o, calc=True)
+        if lines:
+            rb = S.read(lines, "V3000", "C09", floats=textgen.floats_from_lines(lines))
+            if rb and record._check_iso(S.objs[o], S.objs[rb], list(range(g.number_of_nodes()))):
+                S.same(o, rb, list(range(g.number_of_nodes())))
+                c2 = S.canon(rb)
+                if c2:
+                    S.ser(c2)
         ss.append(S)
     # string -> graph -> molfile -> graph -> string, also for graphs whose atoms are not listed in label order
     pool = drivers.molecule_pool(rng, tier, n_random=40 if tier == "quick" else 400, corpus_n=10 if tier == "quick" else 150) + drivers.special_molecules()
